@@ -744,7 +744,10 @@ where
     }
     let env = Env { sec, bases: &bases, fdes: &fdes, pool };
     let n = pool.fdes.len() as u64;
-    let dbg = ctx.dbg() || ctx.slow();
+    let dbg = ctx.dbg() || ctx.slow() || ctx.profile == crate::rt::Profile::Asan;
+    if ctx.slow() {
+        ctx.slow_stride = 6;
+    }
     ctx.obs(if pool.cfg.kind == Kind::Debug { "ctx.kind.debug_frame" } else { "ctx.kind.eh_frame" });
 
     // ---- exhaustive: every history of length <= 3, every variant (rel) / one variant (dbg)
@@ -823,6 +826,7 @@ where
     }
 
     // ---- random histories of length 4..=30 with random modes
+    ctx.slow_stride = 1;
     let nr = ctx.size(24_000, 240_000, 10);
     for i in 0..nr {
         if i % nvar as u64 != vi as u64 {
